@@ -523,6 +523,250 @@ theorem allowed_HoldsOk (i : Input) (out : List Nat) (hw : wf i = true) (hpos : 
     (h : allowed i (.ok out) = true) : HoldsOk i out :=
   (holds_ok_iff i out hpos).1 (allowed_holds i _ hw h)
 
+/-! ### Round 8b: BlockAllocate interpreted, daemon wiring, whole histories -/
+
+/-- the regenerated structure of `BlockAllocate` is the one the model was written against -/
+theorem block_shape_is_todays : Gen.blockShape = blockShapeToday := by decide
+
+/-- the model of `BlockAllocate` IS the interpretation of the regenerated structure, for every configuration, pinset,
+    request, monitor answer and allocator choice (the everywhere arm reads the PING metric) -/
+theorem block_allocate_interprets_gen (cfg : C04.Cfg) (pre : PinMap) (undef : Bool) (p : Pin)
+    (mp : MetricSrc → List Nat) (chosen : List Nat) :
+    blockAllocateWith Gen.blockShape cfg pre undef p mp chosen
+      = some (blockAllocate cfg pre undef p (mp .ping) chosen) := rfl
+
+/-- a body with anything the translator does not expect (a short-cut such as seeded change C03g, a second call, an
+    extra guard) is not interpreted at all: no theorem about it goes through -/
+theorem unknown_block_shape_is_rejected (s : BlockShape) (cfg : C04.Cfg) (pre : PinMap) (undef : Bool) (p : Pin)
+    (mp : MetricSrc → List Nat) (chosen : List Nat) (h : s.noOtherStatements = false) :
+    blockAllocateWith s cfg pre undef p mp chosen = none := by
+  simp [blockAllocateWith, h]
+
+/-- whenever `BlockAllocate` consults allocate(), the input is the one the property reads off the request and its
+    answer IS allocate()'s answer on that input: `chosen` when allocate() succeeds, an error when it fails -/
+theorem block_allocate_is_allocate (cfg : C04.Cfg) (pre : PinMap) (undef : Bool) (p : Pin) (ping chosen : List Nat) (ai : Input)
+    (h : (blockAllocate cfg pre undef p ping chosen).alloc = some ai) :
+    ai = blockInput cfg pre undef p ∧
+    (blockAllocate cfg pre undef p ping chosen).out =
+      (match allocate ai with | .ok _ => BlockOut.ok chosen | _ => BlockOut.err) := by
+  refine ⟨blockAllocate_input cfg pre undef p ping chosen ai h, ?_⟩
+  simp only [blockAllocate] at h ⊢
+  split_ifs at h ⊢ <;> try (simp at h)
+  all_goals
+    generalize C04.allocIn _ _ _ _ = X at h ⊢
+    cases hA : allocate X <;> simp only [hA] at h ⊢ <;> simp at h <;> subst h <;> simp [hA]
+
+/-- so an answer the relation admits for that input is admitted for the block allocation, and satisfies every clause -/
+theorem block_answer_admitted_holds (cfg : C04.Cfg) (pre : PinMap) (undef : Bool) (p : Pin) (ping chosen : List Nat) (ai : Input)
+    (hcfg : (cfg.peers.map (·.1)).Nodup)
+    (h : (blockAllocate cfg pre undef p ping chosen).alloc = some ai)
+    (ha : allowed ai (.ok chosen) = true) :
+    allowed (blockInput cfg pre undef p) (.ok chosen) = true ∧ holds (blockInput cfg pre undef p) (.ok chosen) = true := by
+  have := (block_allocate_is_allocate cfg pre undef p ping chosen ai h).1
+  subst this
+  exact ⟨ha, allowed_holds _ _ (by simp only [wf, blockInput]; exact decide_eq_true hcfg) ha⟩
+
+/-! Witness for the block theorems and refutations: descendalloc, peers 0 (5), 1 (9), 2 (7); CID 1 is stored on peer 0;
+    the request asks for min 2 / max 2 and names peer 2 (second witness: peers 0, 1 only, min 2 / max 3). -/
+private def exBCfg : C04.Cfg :=
+  { follower := false, defMin := 1, defMax := 1, desc := true, peers := [(0, .valid 5), (1, .valid 9), (2, .valid 7)], paths := [], blocks := [] }
+private def exBCfg2 : C04.Cfg := { exBCfg with peers := [(0, .valid 5), (1, .valid 9)] }
+private def exBOpts : Opts :=
+  { rmin := 2, rmax := 2, name := 0, mode := .recursive, shard := 0, expire := .zero, metadata := [], update := none, origins := [], ualloc := [2] }
+private def exBPre : PinMap := [{ pinWithOpts 1 { exBOpts with ualloc := [] } with allocs := [0] }]
+private def exBPin : Pin := pinWithOpts 1 exBOpts
+private def exBPin2 : Pin := pinWithOpts 1 { exBOpts with rmax := 3, ualloc := [] }
+private def exMp : MetricSrc → List Nat
+  | .ping => [0, 1, 2]
+  | .informer 0 => [0, 1]
+  | _ => []
+/-- the interpreted BlockAllocate with the deterministic model of allocate() behind it: (was allocate() consulted,
+    does the property hold, on the PROPERTY's input, for what comes back) -/
+private def exBRun (s : BlockShape) (cfg : C04.Cfg) (pin : Pin) : Option Bool :=
+  match blockAllocateWith s cfg exBPre false pin exMp [] with
+  | some { alloc := some ai, .. } => some (holds (blockInput cfg exBPre false pin) (allocate ai))
+  | _ => none
+
+example : ((blockAllocate exBCfg exBPre false exBPin [0, 1, 2] [0, 2]).alloc.map (fun a => (a.current, a.blacklist, a.priority, a.rmin, a.rmax)))
+    = some ([0], [], [2], 2, 2) := by decide
+example : allocate (blockInput exBCfg exBPre false exBPin) = .ok [0, 2] := by decide
+example : exBRun Gen.blockShape exBCfg exBPin = some true ∧ exBRun Gen.blockShape exBCfg2 exBPin2 = some true := by decide
+
+/-- refuted: BlockAllocate passing no current pin (`nil` instead of `existing`) — the stored healthy holder 0 is forgotten -/
+theorem block_without_current_forgets_holders :
+    exBRun { blockShapeToday with allocArgs := [.ctx, .cid, .nilPin, .rmin, .rmax, .emptyPeers, .ualloc] } exBCfg exBPin = some false := by decide
+
+/-- refuted: BlockAllocate dropping the user allocations — the preferred peer 2 is passed over for the best-ranked peer 1 -/
+theorem block_without_user_allocations_breaks_priority :
+    exBRun { blockShapeToday with allocArgs := [.ctx, .cid, .existing, .rmin, .rmax, .emptyPeers, .emptyPeers] } exBCfg exBPin = some false := by decide
+
+/-- refuted: min and max handed over in the wrong order — a request whose min is reachable fails -/
+theorem block_swapped_factors_fail_reachable_request :
+    exBRun { blockShapeToday with allocArgs := [.ctx, .cid, .existing, .rmax, .rmin, .emptyPeers, .ualloc] } exBCfg2 exBPin2 = some false := by decide
+
+/-- refuted: the everywhere arm reading the allocation informer's metric instead of ping: for EVERY request that reaches
+    the arm the answer is that other list (in the witness peer 2, which pings, gets no blocks) -/
+theorem block_everywhere_must_read_ping (cfg : C04.Cfg) (pre : PinMap) (undef : Bool) (p : Pin) (mp : MetricSrc → List Nat) (chosen : List Nat)
+    (hfol : cfg.follower = false) (hev : C04.effRmin cfg p = -1 ∧ C04.effRmax cfg p = -1)
+    (hexp : p.opts.expire.beforeNow = false)
+    (hty : C04.typeOk (if undef then none else pre.get p.cid) (C04.setupFactors cfg p) = true) :
+    (blockAllocateWith { blockShapeToday with everywhereMetric := .informer 0 } cfg pre undef p mp chosen).map (·.out) = some (.ok (mp (.informer 0))) ∧
+    (blockAllocateWith Gen.blockShape cfg pre undef p mp chosen).map (·.out) = some (.ok (mp .ping)) := by
+  have h := blockAllocate_everywhere cfg pre undef p (mp (.informer 0)) chosen hfol hev hexp hty
+  have h2 := blockAllocate_everywhere cfg pre undef p (mp .ping) chosen hfol hev hexp hty
+  refine ⟨?_, by rw [block_allocate_interprets_gen]; simp [h2]⟩
+  have : blockAllocateWith { blockShapeToday with everywhereMetric := .informer 0 } cfg pre undef p mp chosen
+      = some (blockAllocate cfg pre undef p (mp (.informer 0)) chosen) := rfl
+  rw [this]; simp [h]
+
+example : exMp (.informer 0) ≠ exMp .ping := by decide
+
+/-! ### which informer's metric, and which allocator: the daemon's wiring (cmd/ipfs-cluster-service/daemon.go) -/
+
+/-- today: createCluster builds the disk informer and descendalloc and hands exactly those to NewCluster; allocate() asks the
+    monitor for the metric of `informers[0]`, i.e. the disk informer's; its default metric is free space = StorageMax − RepoSize -/
+theorem daemon_wiring_today :
+    Gen.wiring.informersArg = [Gen.wiring.informerBuilt] ∧ Gen.wiring.allocatorArg = Gen.wiring.allocatorBuilt ∧
+    Gen.wiring.allocateMetric = .informer 0 ∧ Gen.wiring.allocationInformer = some .disk ∧
+    Gen.wiring.allocatorArg = .descend ∧ Gen.wiring.diskDefault = .freespace := by decide
+
+/-- the shipped pairing ranks the least loaded peers first -/
+theorem daemon_pairing_least_loaded_first : Gen.wiring.leastLoadedFirst Gen.wiring.diskDefault = true := by decide
+
+/-- what `leastLoadedFirst` means, for every wiring: of two peers with different metric values the strategy's order
+    (`before`, the order `allowed`'s rank clause uses) puts first the one the informer reports as LESS loaded -/
+theorem least_loaded_first_reading (w : Wiring) (d : DiskMetric) (h : w.leastLoadedFirst d = true) :
+    ∃ k desc, w.allocationInformer = some k ∧ w.allocatorArg.desc = some desc ∧ largerMeansLessLoaded w k d = some desc ∧
+      ∀ x y : Nat, x ≠ y → before desc x y = true → (if desc then y < x else x < y) := by
+  unfold Wiring.leastLoadedFirst at h
+  split at h
+  · rename_i k desc hk hd
+    refine ⟨k, desc, hk, hd, by simpa using h, ?_⟩
+    intro x y hxy hb
+    cases desc <;> simp [before] at hb ⊢ <;> omega
+  · simp at h
+
+/-- refuted: the same informer with the other allocator (ascendalloc on free space) fills the fullest peers first -/
+theorem swapped_allocator_is_most_loaded_first :
+    ({ Gen.wiring with allocatorArg := .ascend }).leastLoadedFirst .freespace = false := by decide
+
+/-- refuted: a pin-count informer with the descending allocator -/
+theorem numpin_with_descend_is_most_loaded_first :
+    ({ Gen.wiring with informersArg := [.numpin] }).leastLoadedFirst .freespace = false ∧
+    ({ Gen.wiring with informersArg := [.numpin], allocatorArg := .ascend }).leastLoadedFirst .freespace = true := by decide
+
+/-- refuted: a second informer put FIRST in the list handed to NewCluster silently becomes the allocation metric -/
+theorem reordered_informers_change_allocation_metric :
+    ({ Gen.wiring with informersArg := [.numpin, .disk] }).allocationInformer = some .numpin ∧
+    ({ Gen.wiring with informersArg := [.numpin, .disk] }).leastLoadedFirst .freespace = false ∧
+    ({ Gen.wiring with informersArg := [.disk, .numpin] }).leastLoadedFirst .freespace = true := by decide
+
+/-- observed on the unchanged tree (a configuration, not an edit): `metric_type: reposize` keeps the hard-wired descendalloc,
+    which then ranks the peers with the LARGEST repository first -/
+theorem reposize_metric_is_fullest_first : Gen.wiring.leastLoadedFirst .reposize = false := by decide
+
+/-! ### whole histories -/
+
+/-- one recorded decision preserves the invariant -/
+theorem history_step_preserves (s : HState) (cid : Nat) (rmin rmax : Int) (bl pri : List Nat) (o : Output)
+    (hi : HInv s) (ha : allowed (s.inputFor cid rmin rmax bl pri) o = true) :
+    HInv (s.record cid (s.inputFor cid rmin rmax bl pri) o) := by
+  obtain ⟨hn, hl, hs⟩ := hi
+  have hh : holds (s.inputFor cid rmin rmax bl pri) o = true :=
+    allowed_holds _ _ (by simp only [wf, HState.inputFor]; exact decide_eq_true hn) ha
+  cases o with
+  | ok l =>
+    refine ⟨hn, ?_, ?_⟩
+    · intro io hio
+      simp only [HState.record, List.mem_cons] at hio
+      rcases hio with rfl | hio
+      · exact hh
+      · exact hl io hio
+    · intro cl hcl
+      simp only [HState.record, List.mem_cons, List.mem_filter] at hcl ⊢
+      rcases hcl with rfl | ⟨hcl, _⟩
+      · exact ⟨_, Or.inl rfl⟩
+      · obtain ⟨i, hi⟩ := hs cl hcl
+        exact ⟨i, Or.inr hi⟩
+  | err =>
+    refine ⟨hn, ?_, ?_⟩
+    · intro io hio
+      simp only [HState.record, List.mem_cons] at hio
+      rcases hio with rfl | hio
+      · exact hh
+      · exact hl io hio
+    · intro cl hcl
+      obtain ⟨i, hi⟩ := hs cl hcl
+      exact ⟨i, by simp only [HState.record, List.mem_cons]; exact Or.inr hi⟩
+  | panic =>
+    refine ⟨hn, ?_, ?_⟩
+    · intro io hio
+      simp only [HState.record, List.mem_cons] at hio
+      rcases hio with rfl | hio
+      · exact hh
+      · exact hl io hio
+    · intro cl hcl
+      obtain ⟨i, hi⟩ := hs cl hcl
+      exact ⟨i, by simp only [HState.record, List.mem_cons]; exact Or.inr hi⟩
+
+/-- WHOLE-HISTORY theorem: along any history of metric / peerset changes, strategy switches, pins, re-pins away from a
+    failed peer and unpins over any number of CIDs — every answer being one the model of allocate() admits for the input
+    at that moment (stored holders of that CID as current) — every decision in the log satisfies every clause of the
+    property for the input at the time it was made, and every stored allocation is the answer of such a decision. -/
+theorem history_all_decisions_hold (ops : List HOp) : ∀ (s0 : HState), HInv s0 → hAdmitted s0 ops = true →
+    HInv (hrun s0 ops) := by
+  induction ops with
+  | nil => intro s0 h _; exact h
+  | cons op rest ih =>
+    intro s0 hi ha
+    simp only [hAdmitted, Bool.and_eq_true] at ha
+    simp only [hrun, List.foldl_cons]
+    refine ih _ ?_ ha.2
+    cases op with
+    | setPeers ps => exact ⟨by simpa [hstep] using ha.1, hi.2.1, hi.2.2⟩
+    | setStrategy d => exact hi
+    | decide cid rmin rmax bl pri out => exact history_step_preserves s0 cid rmin rmax bl pri out hi ha.1
+    | repin cid rmin rmax f out => exact history_step_preserves s0 cid rmin rmax [f] [] out hi ha.1
+    | unpin cid =>
+      refine ⟨hi.1, hi.2.1, ?_⟩
+      intro cl hcl
+      simp only [hstep, List.mem_filter] at hcl
+      exact hi.2.2 cl hcl.1
+
+/-- in particular from the empty cluster -/
+theorem history_from_empty (desc : Bool) (ops : List HOp)
+    (ha : hAdmitted { desc := desc, peers := [], stored := [], log := [] } ops = true) :
+    ∀ io ∈ (hrun { desc := desc, peers := [], stored := [], log := [] } ops).log, holds io.1 io.2 = true :=
+  (history_all_decisions_hold ops _ ⟨by simp, by simp, by simp⟩ ha).2.1
+
+/-- a failed request stores nothing ("the request fails and nothing changes") -/
+theorem failed_decision_changes_nothing (s : HState) (cid : Nat) (i : Input) :
+    (s.record cid i .err).stored = s.stored ∧ (s.record cid i .err).peers = s.peers := ⟨rfl, rfl⟩
+
+/-- a re-pin away from a failed peer along a history: the failed peer is in the new stored list only when the list is
+    the old one verbatim and min OTHER healthy holders remain -/
+theorem history_repin_moves_away (s : HState) (cid : Nat) (rmin rmax : Int) (f : Nat) (out : List Nat)
+    (hn : (s.peers.map (·.1)).Nodup) (hpos : 0 < rmin ∧ rmin ≤ rmax)
+    (ha : allowed (s.inputFor cid rmin rmax [f] []) (.ok out) = true) (hf : f ∈ out) :
+    out = s.allocsOf cid ∧ rmin ≤ ((healthyCurrent (s.inputFor cid rmin rmax [f] [])).length : Int) :=
+  blacklisted_only_kept_verbatim (s.inputFor cid rmin rmax [f] []) out f
+    (by simp only [wf, HState.inputFor]; exact decide_eq_true hn)
+    (by simp [positive, HState.inputFor, hpos.1, hpos.2]) ha (by simp [HState.inputFor]) hf
+
+/-! Non-vacuity: a five-step history over two CIDs — metrics arrive, CID 1 pinned on the best two, CID 2 with a user
+    allocation, peer 1's metric expires while peer 3 joins, CID 1 re-pinned away from peer 1. -/
+private def exHist : List HOp :=
+  [ .setPeers [(0, .valid 5), (1, .valid 9), (2, .valid 7)],
+    .decide 1 2 2 [] [] (.ok [1, 2]),
+    .decide 2 1 1 [] [0] (.ok [0]),
+    .setPeers [(0, .valid 5), (1, .expired), (2, .valid 7), (3, .valid 8)],
+    .repin 1 2 2 1 (.ok [2, 3]),
+    .decide 2 4 4 [] [] .err ]
+private def exH0 : HState := { desc := true, peers := [], stored := [], log := [] }
+example : hAdmitted exH0 exHist = true := by decide
+example : (hrun exH0 exHist).stored = [(1, [2, 3]), (2, [0])] := by decide
+example : (hrun exH0 exHist).log.length = 4 := by decide
+
 /-! ### The source still reads as the model was transcribed (regenerated on every run) -/
 
 theorem gen_allocate_skeleton : Gen.allocateSkeleton = Expected.allocateSkeleton := by rfl
@@ -538,6 +782,7 @@ theorem gen_pipeline_source :
     Gen.windowAdd = Expected.windowAdd ∧ Gen.windowLatest = Expected.windowLatest ∧
     Gen.metricDiscard = Expected.metricDiscard ∧ Gen.metricExpired = Expected.metricExpired := ⟨rfl, rfl, rfl, rfl, rfl, rfl, rfl, rfl⟩
 theorem gen_block_allocate_source : Gen.blockAllocate = Expected.blockAllocate := rfl
+theorem gen_daemon_wiring_source : Gen.daemonWiringSource = Expected.daemonWiringSource := rfl
 theorem gen_call_sites : Gen.obtainCall = Expected.obtainCall ∧ Gen.pinAllocateCall = Expected.pinAllocateCall := ⟨rfl, rfl⟩
 
 end CV.C03
